@@ -145,6 +145,15 @@ def cases(rng, tier):
                 g = ["--file", "@F"] + g
             branch = "fault-file-" + fs
         yield "cli %s %s %s" % (fs, ob(), enc(g + s)), branch
+    # values that begin with a character some argument parsers give a meaning to (`@name` = "read arguments from the file
+    # name", `=`, `+`), naming files that EXIST in the working directory of the run (the harness puts `tmp`,
+    # `wallet.json`, `out.json.tmp`, ... there): a value is a value
+    for val in ("@tmp", "@wallet.json", "@out.json.tmp", "@missing-file", "=x", "+p", "@", "@@tmp"):
+        yield "cli absent %s %s" % (ob(), enc(["--interval", "0", "1", "from-mnemonic", MN12, "--password", val])), "value-meta-character"
+        yield "cli absent %s %s" % (ob(), enc(["--interval", "0", "1", "from-entropy-hex", "00" * 16, "--password", val])), "value-meta-character"
+    for val in ("@tmp", "@wallet.json"):
+        yield "cli absent %s %s" % (ob(), enc(["--interval", "0", "1", "from-mnemonic", val])), "value-meta-character-positional"
+        yield "cli absent %s %s" % (ob(), enc(["--interval", "0", "1", "from-bip39-seed", val])), "value-meta-character-positional"
 
 
 def extra_checks(rng, tier, g_, info):
